@@ -360,5 +360,12 @@ fire_on("r63-shared-run-field-changed", ["C10"], "R6-3", GET, '    "DF039": "GLO
 fire_on("r56-table-wrong-parser", ["C02"], "R5-6", RDR, '(NMEA_HDR, "_parse_nmea"),', '(NMEA_HDR, "_parse_ubx"),', "NMEA sentences handed to the UBX skipper")
 fire_on("r56-table-name-typo", ["C04"], "R5-6", RDR, '((UBX_HDR,), "_parse_ubx"),', '((UBX_HDR,), "_parse_ubxx"),', "AttributeError from the name-driven dispatch")
 fire_on("r56-else-on-wrong-level", ["C02"], "R5-6", RDR, "                        (raw_data, parsed_data) = getattr(self, parser)(bytehdr)\n                        break\n", "                        (raw_data, parsed_data) = getattr(self, parser)(bytehdr)\n", "skipped protocols fall into the RTCM3 / unknown-header branch")
+fire_on("r73-divmod-divisor", ["C09"], "R7-3", MSG, "sat, sig = divmod(idx, nsig)", "sat, sig = divmod(idx, nsat)", "cells mapped signal-major")
+fire_on("r73-comp-range-short", ["C09", "C03"], "R7-3", MSG, "for idx in range(33)\n", "for idx in range(32)\n", "last signal ID never examined")
+fire_on("r73-cell-position", ["C09"], "R7-3", MSG, "(1 << (ncells - 1 - idx))", "(1 << (ncells - idx))", "cell mask read one bit off")
+fire_on("r72-walrus-two-bytes", ["C11"], "R7-2", SOCK, "while len(data := self.read(1)) == 1:", "while len(data := self.read(2)) == 1:", "reads two bytes per iteration and stops on a full read")
+fire_on("r72-endswith-lf-only", ["C11"], "R7-2", SOCK, 'if line.endswith(b"\\r\\n"):', 'if line.endswith(b"\\n"):', "line ends at a bare LF")
+fire_on("r76-bytes-order", ["C07"], "R7-6", HLP, "bytes((crc >> 16, crc >> 8 & 0xFF, crc & 0xFF))", "bytes((crc & 0xFF, crc >> 8 & 0xFF, crc >> 16))", "CRC bytes little-endian")
+fire_on("r71-handler-returns", ["C02", "C05"], "R7-1", RDR, "                if self._quitonerror:\n                    self._do_error(err)\n", "                if self._quitonerror:\n                    self._do_error(err)\n                return (None, None)\n", "iteration ends at the first damaged frame")
 
 VARIANTS = V
